@@ -199,7 +199,7 @@ let stopped_other_name iters dl i ty inst =
           | RPtr a -> a = inst && d.dl_rr.r_name = ty2 && d.dl_rr.r_type = ty_ptr | _ -> false) dl
       | _ -> false) it.i_calls) (take (i + 1) iters)
 
-let refine ifs iters (hidden : bool Lazy.t) (f : fail) (tag : string) : string =
+let refine ifs iters (hidden : bool Lazy.t) (refreshc : bool Lazy.t) (f : fail) (tag : string) : string =
   let dl = all_dlvs ifs iters in
   match f with
   | F04_labels (_, ls) ->
@@ -208,7 +208,10 @@ let refine ifs iters (hidden : bool Lazy.t) (f : fail) (tag : string) : string =
     if List.exists (fun t -> low t <> ls && low (name_labels (dotted t)) = ls) targets then "labels:presentation" else tag
   | F05_alive (_, _, ty, inst) ->
     if ptr_variants dl ty inst then "alive:ptr-variant" else if srv_targets dl inst then "alive:srv-targets" else tag
-  | F04_complete (_, _, _, inst, fresh) -> if fresh && srv_targets dl inst then "complete:srv-targets" else tag
+  | F04_complete (_, _, _, inst, fresh) ->
+    if fresh && srv_targets dl inst then "complete:srv-targets"
+    (* the class excluded by C04_complete_is_up_partial: a delivery that is not a new record completed an instance *)
+    else if Lazy.force refreshc then "complete:refresh-only" else tag
   (* the class excluded by C04_resolved_only_after_found_partial (Model/BrowserKnown.v) *)
   | F05_dead (i, _, ty, inst, _, srv_live) ->
     if not srv_live && stopped_other_name iters dl (int_of_n i) ty inst then "dead:stopped-second-name"
@@ -224,7 +227,8 @@ let verdict ifs iters (fs : fail list) : string =
   | [] -> "PASS"
   | _ ->
     let hidden = lazy (known_removal_hidden ifs iters) in
-    let tagged = List.map (fun f -> let (t, d) = string_of_fail f in (refine ifs iters hidden f t, d)) fs in
+    let refreshc = lazy (known_refresh_completes ifs iters) in
+    let tagged = List.map (fun f -> let (t, d) = string_of_fail f in (refine ifs iters hidden refreshc f t, d)) fs in
     let tags = List.sort_uniq compare (List.map fst tagged) in
     Printf.sprintf "FAIL[%s] %s (%d failures)" (String.concat "," tags) (snd (List.hd tagged)) (List.length fs)
 
